@@ -21,7 +21,7 @@ func (c18Stream) Name() string               { return "c18" }
 func (c18Stream) CaseTimeout() time.Duration { return 60 * time.Second }
 func (c18Stream) NoModel() bool              { return true }
 func (c18Stream) Rule() string {
-	return "TLS configurations {server authentication only, client certificate required and verified (the test directory's WithMTLS configuration)} x {static certificate list, certificate supplied by the GetCertificate callback, whole configuration supplied per client by GetConfigForClient} x offenders {plaintext LDAP request of each of the seven operations, random bytes, TCP connect without ClientHello, valid TLS without a client certificate, a certificate from a different CA, a foreign leaf with the genuine client certificate appended to its chain, no / foreign certificate without SNI, a truncated first TLS record followed by silence} (1..6 offenders in parallel), concurrently with two conforming clients issuing requests and a third that connects while the offenders (a silent one holds its connection for 1.2 s) are still there; oracle: no handler ever runs for an offender's message (offenders use reserved message ids) nor on an offender's connection at all, every conforming request is answered, and each offender's connection is ended without disturbing the others; non-trivial = at least one offender whose bytes would decode as LDAP, distinct by scenario"
+	return "TLS configurations {server authentication only, client certificate required and verified (the test directory's WithMTLS configuration)} x {static certificate list, certificate supplied by the GetCertificate callback, whole configuration supplied per client by GetConfigForClient} x offenders {plaintext LDAP request of each of the seven operations, random bytes, TCP connect without ClientHello, valid TLS without a client certificate, a certificate from a different CA, a foreign leaf with the genuine client certificate appended to its chain, no / foreign certificate without SNI, a truncated first TLS record followed by silence} (1..6 offenders in parallel, now and then together with a crowd of 70 clients that connect and stay silent), optionally with a second, weaker TLS configuration handed to NewServer (the one given to Run governs), concurrently with two conforming clients issuing requests and a third that connects while the offenders (a silent one holds its connection for 1.2 s) are still there; oracle: no handler ever runs for an offender's message (offenders use reserved message ids) nor on an offender's connection at all, every conforming request is answered, and each offender's connection is ended without disturbing the others; non-trivial = at least one offender whose bytes would decode as LDAP, distinct by scenario"
 }
 
 var c18Offenders = []string{"plain-bind", "plain-search", "plain-modify", "plain-add", "plain-delete", "plain-extended", "plain-unbind", "random", "silent", "nocert", "othercert", "otherchain", "nocert-nosni", "othercert-nosni", "halfhello"}
@@ -38,7 +38,14 @@ func (c18Stream) Generate(rng *rand.Rand, n int, thorough bool) []Case {
 				offs[i] = "plain-bind" // without client-auth these two are conforming clients
 			}
 		}
-		cs = append(cs, Case{Line: fmt.Sprintf("c18 mtls=%d certvia=%s offenders=%s seed=%d", mtls, []string{"static", "static", "callback", "perclient"}[rng.Intn(4)], strings.Join(offs, ","), rng.Intn(1<<30)), Kind: fmt.Sprintf("mtls%d", mtls)})
+		if rng.Intn(8) == 0 {
+			offs = append(offs, "silentcrowd") // 70 clients that connect and never say a word
+		}
+		newsrv := 0
+		if mtls == 1 && rng.Intn(3) == 0 {
+			newsrv = 1 // NewServer is ALSO given a TLS configuration, a weaker one: the one given to Run governs
+		}
+		cs = append(cs, Case{Line: fmt.Sprintf("c18 mtls=%d newsrv=%d certvia=%s offenders=%s seed=%d", mtls, newsrv, []string{"static", "static", "callback", "perclient"}[rng.Intn(4)], strings.Join(offs, ","), rng.Intn(1<<30)), Kind: fmt.Sprintf("mtls%d", mtls)})
 	}
 	return cs
 }
@@ -104,10 +111,16 @@ func (c18Stream) Impl(c Case) string {
 	}
 	mux := allRoutes(h, nil, uh)
 	_ = mux.DefaultRoute(h)
-	sut, err := startServer(mux, srvCfg, nil)
+	var nsOpts []gldap.Option
+	if p["newsrv"] == "1" {
+		nsOpts = append(nsOpts, gldap.WithTLSConfig(srvTLS))
+	}
+	sut, err := startServer(mux, srvCfg, nil, nsOpts...)
 	if err != nil {
 		return "harness-error start: " + err.Error()
 	}
+	crowdReady := make(chan struct{})
+	hasCrowd := strings.Contains(p["offenders"], "silentcrowd")
 	verdict := "ok"
 	var vmu sync.Mutex
 	fail := func(f string, a ...interface{}) {
@@ -156,6 +169,18 @@ func (c18Stream) Impl(c Case) string {
 			defer ow.Done()
 			id := int64(60000 + i)
 			switch {
+			case kind == "silentcrowd":
+				var cs []net.Conn
+				for j := 0; j < 70; j++ {
+					if c, err := net.DialTimeout("tcp", sut.addr, 3*time.Second); err == nil {
+						cs = append(cs, c)
+					}
+				}
+				close(crowdReady)
+				time.Sleep(1500 * time.Millisecond)
+				for _, c := range cs {
+					c.Close()
+				}
 			case strings.HasPrefix(kind, "plain-"), kind == "random", kind == "silent", kind == "halfhello":
 				c, err := net.DialTimeout("tcp", sut.addr, 3*time.Second)
 				if err != nil {
@@ -222,6 +247,13 @@ func (c18Stream) Impl(c Case) string {
 	// a conforming client that arrives while the offenders are busy offending: their attempts "end only their
 	// own connection", so it is served promptly
 	time.Sleep(15 * time.Millisecond)
+	if hasCrowd {
+		select {
+		case <-crowdReady:
+		case <-time.After(5 * time.Second):
+		}
+		time.Sleep(20 * time.Millisecond)
+	}
 	{
 		cfg := goodCli.Clone()
 		cfg.ServerName = "localhost"
